@@ -22,6 +22,7 @@ import (
 	"syscall"
 	"time"
 
+	zcmdp "github.com/internetarchive/Zeno/cmd"
 	"github.com/internetarchive/Zeno/internal/pkg/archiver"
 	"github.com/internetarchive/Zeno/internal/pkg/config"
 	"github.com/internetarchive/Zeno/internal/pkg/controler"
@@ -82,6 +83,7 @@ type PipeSpec struct {
 	TimeoutMs   int      `json:"timeout_ms"`
 	Footprint   bool     `json:"footprint"`
 	HTTPTimeout int      `json:"http_timeout"` // --http-timeout in seconds (0 = none)
+	ViaFlags    bool     `json:"via_flags"`    // the configuration starts from the REAL command line (cobra flags -> viper -> InitConfig); whether WARC writing is asynchronous is then what the flags say, not what this harness assigns
 	StopSignal  string   `json:"stop_signal"`  // "TERM" / "INT": the stop request arrives the way an operator sends it - as a signal handled by the real controler.WatchSignals() (which stops and exits 0)
 	IncludeHost string   `json:"include_host"` // "A" / "B": --include-host = that origin host; seeds, assets and redirect targets elsewhere are out of scope
 	TempInJob   bool     `json:"temp_in_job"` // --warc-temp-dir = the job directory itself (legal, unusual): nothing of the job may be deleted at stop
@@ -204,13 +206,27 @@ func runPipeChild(specPath string) {
 	}
 
 	// ---- configuration, exactly the fields the CLI would fill
-	must(config.InitConfig())
+	if sp.ViaFlags {
+		os.Setenv("HOME", sp.Dir)
+		argv := []string{"get", "url", "--job", sp.Job, "--no-stdout-log", "--no-stderr-log", "--no-log-file",
+			"--workers", fmt.Sprint(sp.Workers), "--max-concurrent-assets", fmt.Sprint(sp.MCA)}
+		if sp.Async {
+			argv = append(argv, "--async-warc-write")
+		}
+		argv = append(argv, "http://127.0.0.9:9/")
+		must(zcmdp.VerifRun(argv, func(args []string) error { return nil }))
+	} else {
+		must(config.InitConfig())
+	}
 	c := config.Get()
 	c.Job = sp.Job
 	c.WorkersCount = sp.Workers
 	c.MaxConcurrentAssets = sp.MCA
 	c.DisableSeencheck = !sp.Seencheck
-	c.WARCWriteAsync = sp.Async
+	if !sp.ViaFlags {
+		c.WARCWriteAsync = sp.Async
+	}
+	c.InputSeeds = nil
 	c.WARCPoolSize = sp.Pool
 	c.WARCQueueSize = -1
 	c.WARCOnDisk = sp.OnDisk
@@ -263,6 +279,9 @@ func runPipeChild(specPath string) {
 
 	// ---- hook handler
 	res := &PipeResult{Port: port, Stats: map[string]int{}}
+	if config.Get().WARCWriteAsync {
+		res.Stats["async_effective"] = 1
+	}
 	var finished atomic.Int64
 	written := map[string][]string{} // seed id -> URLs whose WARC write was acknowledged
 	var writtenMu sync.Mutex
